@@ -1,13 +1,16 @@
 (* Non-vacuity for C01: a concrete composed model meeting the theorems' hypotheses. *)
 From Coq Require Import List String Permutation ZArith.
 From Coq Require Import Floats.PrimFloat Lia.
-From PAFC01 Require Import ModelTree Sorting Proofs Proofs2 Proofs3 Proofs4 Model Proofs5 Proofs6.
+From PAFC01 Require Import ModelTree Sorting Proofs Proofs2 Proofs3 Proofs4 Model Proofs5 Proofs6 Proofs7 Proofs8.
 Import ListNotations.
 Local Open Scope string_scope.
 Local Open Scope list_scope.
 
 Definition zbin (o : binop) (a b : Z) : Z :=
-  match o with OAdd => (a + b)%Z | OSub => (a - b)%Z | OMul => (a * b)%Z | ODiv => (a / b)%Z end.
+  match o with OAdd => (a + b)%Z | OSub => (a - b)%Z | OMul => (a * b)%Z | ODiv => (a / b)%Z
+  | OFloorDiv => (a / b)%Z | OMod => (a mod b)%Z end.   (* Z.div / Z.modulo: floor division, remainder with the sign of the divisor *)
+
+Definition zun (o : unop) (a : Z) : Z := match o with UNeg => (- a)%Z | UAbs => Z.abs a end.
 
 (* Collection(g = Model(T2, c = p1, pos = (p0, 7)), h = Model(G2, a = p1 (shared), b = p0 * 2)) *)
 Definition ex : node Z :=
@@ -27,7 +30,7 @@ Example ex_placement_hyp : node_at Z ["g"; "c"] ex = Some (NPrior (nth 1 (ordere
 Proof. vm_compute. split; reflexivity. Qed.
 
 Example ex_instance :
-  inst_from_vector Z zbin ex [10%Z; 20%Z] =
+  inst_from_vector Z zbin zun ex [10%Z; 20%Z] =
   IColl [("g", IObj "T2" [("c", IV 20%Z); ("pos", ITup [IV 10%Z; IV 7%Z])]);
          ("h", IObj "G2" [("a", IV 20%Z); ("b", IV 20%Z)])].
 Proof. vm_compute. reflexivity. Qed.
@@ -52,8 +55,8 @@ Example ex_ith_value_hyp : node_at Z (nth 1 (unique_prior_paths Z ex) []) ex <> 
 Proof. vm_compute. discriminate. Qed.
 
 Example ex_ith_value :
-  lookup Z (nth 1 (unique_prior_paths Z ex) []) (inst_from_vector Z zbin ex [10%Z; 20%Z]) = Some (IV (nth 1 [10%Z; 20%Z] 0%Z)).
-Proof. exact (ith_value Z zbin ex [10%Z; 20%Z] 1 [] 0%Z ex_wf2 eq_refl (le_n 2) ex_ith_value_hyp). Qed.
+  lookup Z (nth 1 (unique_prior_paths Z ex) []) (inst_from_vector Z zbin zun ex [10%Z; 20%Z]) = Some (IV (nth 1 [10%Z; 20%Z] 0%Z)).
+Proof. exact (ith_value Z zbin zun ex [10%Z; 20%Z] 1 [] 0%Z ex_wf2 eq_refl (le_n 2) ex_ith_value_hyp). Qed.
 
 (* the 0-th advertised path of ex lies inside an arithmetic node: not structural (C01_paths_classified, right branch) *)
 Example ex_path0_not_structural : node_at Z (nth 0 (unique_prior_paths Z ex) []) ex = None.
@@ -73,11 +76,11 @@ Proof.
 Qed.
 
 Example ext_ith_value_tuple :
-  exists vs, lookup Z ["g"; "pos"] (inst_from_vector Z zbin ext [10%Z; 20%Z]) = Some (ITup vs) /\
+  exists vs, lookup Z ["g"; "pos"] (inst_from_vector Z zbin zun ext [10%Z; 20%Z]) = Some (ITup vs) /\
              List.length vs = 2 /\ nth 0 vs IMissing = IV (nth 0 [10%Z; 20%Z] 0%Z).
 Proof.
   destruct ext_tuple_hyp as [W [Ep Hn]].
-  apply (ith_value_tuple Z zbin ext [10%Z; 20%Z] 0 [] 0%Z ["g"; "pos"] "pos_0" _ 0 (NPrior 0) W eq_refl (le_S _ _ (le_n 1)) Ep Hn).
+  apply (ith_value_tuple Z zbin zun ext [10%Z; 20%Z] 0 [] 0%Z ["g"; "pos"] "pos_0" _ 0 (NPrior 0) W eq_refl (le_S _ _ (le_n 1)) Ep Hn).
   - simpl. apply perm_swap.
   - right. left. reflexivity.
 Qed.
@@ -90,8 +93,8 @@ Example exsq_wf : wfb Z exsq = false /\ wfb2 Z Z.eqb exsq = true.
 Proof. vm_compute. split; reflexivity. Qed.
 
 Example exsq_routes :
-  inst_from_paths Z zbin exsq (combine (unique_prior_paths Z exsq) [3%Z; 5%Z]) = inst_from_vector Z zbin exsq [3%Z; 5%Z]
-  /\ inst_from_vector Z zbin exsq [3%Z; 5%Z] = IColl [("g", IObj "G2" [("a", IV 9%Z); ("b", IV 5%Z)])].
+  inst_from_paths Z zbin zun exsq (combine (unique_prior_paths Z exsq) [3%Z; 5%Z]) = inst_from_vector Z zbin zun exsq [3%Z; 5%Z]
+  /\ inst_from_vector Z zbin zun exsq [3%Z; 5%Z] = IColl [("g", IObj "G2" [("a", IV 9%Z); ("b", IV 5%Z)])].
 Proof. vm_compute. split; reflexivity. Qed.
 
 (* any-path route: parameter 1 addressed through its OTHER path g.c, parameter 0 given twice (last wins) *)
@@ -108,7 +111,7 @@ Proof. split; [reflexivity|]. vm_compute. intros [H|[]]. discriminate H. Qed.
 
 (* unit route: value_for q u = 100 * q + u *)
 Example ex_unit :
-  inst_from_unit Z zbin (fun q u => (100 * Z.of_nat q + u)%Z) ex [1%Z; 2%Z] =
+  inst_from_unit Z zbin zun (fun q u => (100 * Z.of_nat q + u)%Z) ex [1%Z; 2%Z] =
   IColl [("g", IObj "T2" [("c", IV 102%Z); ("pos", ITup [IV 1%Z; IV 7%Z])]);
          ("h", IObj "G2" [("a", IV 102%Z); ("b", IV 2%Z)])].
 Proof. vm_compute. reflexivity. Qed.
@@ -144,26 +147,95 @@ Definition ex_arith_member : fnode :=
 
 (* the model = the code as it now is *)
 Example tuple_arith_member_now :
-  lookup float ["pos"] (inst_from_vector float fbin ex_arith_member [0.25%float; 0.5%float; 0.75%float])
+  lookup float ["pos"] (inst_from_vector float fbin funop ex_arith_member [0.25%float; 0.5%float; 0.75%float])
   = Some (ITup [IV 0.75%float; IV 0.5%float]).
 Proof. vm_compute. reflexivity. Qed.
 
 (* C01_tuple_member_derived: its hypotheses are met by the arithmetic member of ex_arith_member *)
 Example tuple_member_derived_hyp :
-  eval float fbin (zip_args float [0; 1; 2] [0.25%float; 0.5%float; 0.75%float]) (NBin OAdd "p0" "p1" (NPrior 0) (NPrior 1))
+  eval float fbin funop (zip_args float [0; 1; 2] [0.25%float; 0.5%float; 0.75%float]) (NBin OAdd "p0" "p1" (NPrior 0) (NPrior 1))
   = Some 0.75%float.
 Proof. vm_compute. reflexivity. Qed.
 
 Example tuple_arith_member_legacy_refuted :
   exists (n : fnode) (vec : list float),
-    ival_eqb (inst float fbin (zip_args float (ordered_ids float n) vec) (legacy_prune n)) (inst_from_vector float fbin n vec) = false.
+    ival_eqb (inst float fbin funop (zip_args float (ordered_ids float n) vec) (legacy_prune n)) (inst_from_vector float fbin funop n vec) = false.
 Proof. exists ex_arith_member, [0.25%float; 0.5%float; 0.75%float]. vm_compute. reflexivity. Qed.
 
 Example tuple_arith_member_legacy :
-  lookup float ["pos"] (inst float fbin (zip_args float (ordered_ids float ex_arith_member) [0.25%float; 0.5%float; 0.75%float]) (legacy_prune ex_arith_member))
+  lookup float ["pos"] (inst float fbin funop (zip_args float (ordered_ids float ex_arith_member) [0.25%float; 0.5%float; 0.75%float]) (legacy_prune ex_arith_member))
   = Some (ITup [IV 0.5%float]).
 Proof. vm_compute. reflexivity. Qed.
 
+(* ---------- the unary node: Collection(g = Model(G2, a = abs(p0 - p1), b = -p1)); p0 - p1 is built by the
+   API as SumPrior(p0, NegativePrior(p1)) ---------- *)
+Definition exun : node Z :=
+  NColl [("g", NModel "G2" ["a"; "b"]
+                 [("a", NUn UAbs "self" (NBin OAdd "p0" "other" (NPrior 0) (NUn UNeg "p1" (NPrior 1))));
+                  ("b", NUn UNeg "p1" (NPrior 1))])].
+
+Example exun_order :
+  ordered_ids Z exun = [0; 1] /\ prior_count Z exun = 2 /\
+  unique_prior_paths Z exun = [["g"; "a"; "self"; "p0"]; ["g"; "b"; "p1"]] /\
+  paths Z exun = [["g"; "a"; "self"; "p0"]; ["g"; "a"; "self"; "other"; "p1"]; ["g"; "b"; "p1"]].
+Proof. vm_compute. repeat split; reflexivity. Qed.
+
+Example exun_wf2 : wfb Z exun = true /\ wfb2 Z Z.eqb exun = true.
+Proof. vm_compute. split; reflexivity. Qed.
+
+Example exun_instance :
+  inst_from_vector Z zbin zun exun [3%Z; 10%Z] = IColl [("g", IObj "G2" [("a", IV 7%Z); ("b", IV (-10)%Z)])].
+Proof. vm_compute. reflexivity. Qed.
+
+(* C01_unary_value / C01_unary_of_ith_value: hypotheses met at g.b *)
+Example exun_value_hyp :
+  node_at Z ["g"; "b"] exun = Some (NUn UNeg "p1" (NPrior (nth 1 (ordered_ids Z exun) 0))) /\
+  is_const Z (NPrior 1) = false.
+Proof. vm_compute. split; reflexivity. Qed.
+
+Example exun_ith_value :
+  lookup Z ["g"; "b"] (inst_from_vector Z zbin zun exun [3%Z; 10%Z]) = Some (IV (zun UNeg (nth 1 [3%Z; 10%Z] 0%Z))).
+Proof. exact (unary_of_ith_value Z zbin zun exun [3%Z; 10%Z] 1 ["g"; "b"] UNeg "p1" 0%Z eq_refl (le_n 2) (proj1 exun_value_hyp)). Qed.
+
+(* second half of C01_unary_value: no argument for the operand -> no value *)
+Example exun_missing :
+  lookup Z ["g"; "b"] (inst Z zbin zun (fun _ => None) exun) = Some IMissing.
+Proof. vm_compute. reflexivity. Qed.
+
+(* C01_subtraction: hypotheses met by p0 - p1 *)
+Example exun_sub_hyp :
+  eval Z zbin zun (zip_args Z [0; 1] [3%Z; 10%Z]) (NPrior 0) = Some 3%Z /\
+  eval Z zbin zun (zip_args Z [0; 1] [3%Z; 10%Z]) (NPrior 1) = Some 10%Z /\ "p0" <> "other".
+Proof. repeat split; try reflexivity. discriminate. Qed.
+
+(* the float instance used by the correspondence: -x and abs(x) act on the sign bit only (also of zeros) *)
+Example funop_signs :
+  map (funop UNeg) [0.5%float; (-0.25)%float] = [(-0.5)%float; 0.25%float] /\
+  map (funop UAbs) [0.5%float; (-0.25)%float] = [0.5%float; 0.25%float] /\
+  PyFloat.fbits_eqb (funop UNeg 0%float) (-0)%float = true /\ PyFloat.fbits_eqb (funop UAbs (-0)%float) 0%float = true.
+Proof. vm_compute. repeat split; reflexivity. Qed.
+
+(* ---------- // and %: the sign of the divisor (C01_mod_floordiv_Q is not vacuous: b <> 0), over Q, Z and binary64 ---------- *)
+Example mod_sign_of_divisor_Q :
+  QArith_base.Qeq (Proofs7.qbin OMod (QArith_base.Qmake (-30) 1) (QArith_base.Qmake 360 1)) (QArith_base.Qmake 330 1) /\
+  QArith_base.Qeq (Proofs7.qbin OFloorDiv (QArith_base.Qmake (-30) 1) (QArith_base.Qmake 360 1)) (QArith_base.Qmake (-1) 1) /\
+  QArith_base.Qeq (Proofs7.qbin OMod (QArith_base.Qmake 7 2) (QArith_base.Qmake (-2) 1)) (QArith_base.Qmake (-1) 2) /\
+  QArith_base.Qeq (Proofs7.qbin OFloorDiv (QArith_base.Qmake 7 2) (QArith_base.Qmake (-2) 1)) (QArith_base.Qmake (-2) 1).
+Proof. vm_compute. repeat split; reflexivity. Qed.
+Example mod_sign_of_divisor_Z : zbin OMod (-30) 360 = 330%Z /\ zbin OFloorDiv (-30) 360 = (-1)%Z /\ zbin OMod 7 (-2) = (-1)%Z.
+Proof. vm_compute. repeat split; reflexivity. Qed.
+Example mod_sign_of_divisor_float :
+  fbin OMod (-30)%float 360%float = 330%float /\ fbin OFloorDiv (-30)%float 360%float = (-1)%float /\
+  fbin OMod 3.5%float (-2)%float = (-0.5)%float /\ fbin OFloorDiv 3.5%float (-2)%float = (-2)%float /\
+  PyFloat.fbits_eqb (fbin OMod (-4)%float 2%float) 0%float = true /\ PyFloat.fbits_eqb (fbin OMod 4%float (-2)%float) (-0)%float = true.
+Proof. vm_compute. repeat split; reflexivity. Qed.
+(* a model using them: Collection(g = Model(G2, a = p0 % 360, b = 7 // p1)) *)
+Example exmod_instance :
+  inst_from_vector Z zbin zun
+    (NColl [("g", NModel "G2" ["a"; "b"] [("a", NBin OMod "p0" "other" (NPrior 0) (NConst 360%Z));
+                                            ("b", NBin OFloorDiv "other" "self" (NConst 7%Z) (NPrior 1))])]) [(-30)%Z; (-2)%Z]
+  = IColl [("g", IObj "G2" [("a", IV 330%Z); ("b", IV (-4)%Z)])].
+Proof. vm_compute. reflexivity. Qed.
 (* ---- items addressed by name, not by position (C01_item_by_name / C01_item_order_irrelevant) ----
    c = Collection(main = Model(G2, a = p0, b = p1)); c.append(Model(G2, a = p2, b = p3)):
    the item named "0" is the SECOND item *)
@@ -186,7 +258,7 @@ Proof. vm_compute. reflexivity. Qed.
 
 Example exnum_by_name :
   prior_at Z ["0"; "a"] exnum = Some 2 /\
-  lookup Z ["0"; "a"] (inst_from_vector Z zbin exnum [10; 20; 30; 40]%Z) = Some (IV 30%Z).
+  lookup Z ["0"; "a"] (inst_from_vector Z zbin zun exnum [10; 20; 30; 40]%Z) = Some (IV 30%Z).
 Proof. vm_compute. split; reflexivity. Qed.
 
 Example exnum_order_hyp : Permutation exnum_items (rev exnum_items).
